@@ -76,6 +76,9 @@ func (a *API) enter(ctx context.Context, tok int) *Tok {
 	}
 	t.mu.Lock()
 	gate := t.Gate
+	if t.Kind == "rev" {
+		gate = nil // for reverse-calling ops the gate holds the client-side handler
+	}
 	t.mu.Unlock()
 	if gate != nil {
 		<-gate
@@ -247,6 +250,9 @@ func (a *API) ReadAll(ctx context.Context, tok int, r io.Reader) (string, error)
 		}
 	}
 	past := func(k int) {
+		// let the world move on first: the upload handler has been released by the
+		// first EOF and net/http closes the request body behind it
+		simrt.Yield("after-eof")
 		for i := 0; i < k; i++ {
 			n, err := r.Read(make([]byte, 16))
 			if n != 0 || err != io.EOF {
@@ -341,6 +347,12 @@ func (h *RevHandler) Who(ctx context.Context, tok int) (string, error) {
 	t := h.e.Tok(tok)
 	if t.Hold {
 		simrt.Yield("revhandler-" + strconv.Itoa(tok))
+	}
+	t.mu.Lock()
+	gate := t.Gate
+	t.mu.Unlock()
+	if gate != nil {
+		<-gate // released by the scenario (e.g. only after a reconnect)
 	}
 	if t.Panic != "" && t.Kind == "rev" {
 		doPanic(t.Panic, tok)
